@@ -7,7 +7,8 @@ package accumulation
 //	type S1 struct{}   func (s *S1) Get() *int { G1 }   func (s *S1) Set(p *int) { T1 }
 //	type S2 struct{}   func (s S2)  Get() *int { G2 }   func (s S2)  Set(p *int) { T2 }     (value receiver)
 //	func use(i I) { U }            U: _ = *i.Get() | if v := i.Get(); v != nil { _ = *v } | i.Set(nil) | i.Set(new(int))
-//	func Entry() { conversion(s) of &S1{} and/or S2{} to I, by assignment or as an argument of use }
+//	func Entry() { conversion(s) of &S1{} and/or S2{} to I: assignment, argument, either in a branch, both, `:=` reusing an
+//	               interface variable, return statement, composite literal, append, decorator (struct embedding I converted to J) }
 //
 // G ::= return nil | return new(int)      T ::= _ = *p | if p != nil { _ = *p }
 // With SPLITS=2 the interface and use() also live in a dependency m/q (facts handed to the importer).
@@ -54,26 +55,38 @@ func Harness_P09() {
 
 	// what use() does with the interface value
 	usesGetUnchecked, passesNil := false, false
-	ifaceTo.WriteString("func Use(i I) {\n")
+	useBody := ""
 	switch ndChoice("use", 4) {
 	case 0:
-		ifaceTo.WriteString("\t_ = *i.Get()\n")
+		useBody = "\t_ = *i.Get()\n"
 		usesGetUnchecked = true
 	case 1:
-		ifaceTo.WriteString("\tif v := i.Get(); v != nil {\n\t\t_ = *v\n\t}\n")
+		useBody = "\tif v := i.Get(); v != nil {\n\t\t_ = *v\n\t}\n"
 	case 2:
-		ifaceTo.WriteString("\ti.Set(nil)\n")
+		useBody = "\ti.Set(nil)\n"
 		passesNil = true
 	default:
-		ifaceTo.WriteString("\ti.Set(new(int))\n")
+		useBody = "\ti.Set(new(int))\n"
 	}
-	ifaceTo.WriteString("}\n\n")
+	conv := ndChoice("conversion", ndParam("CONVERSIONS", 9))
+	if conv == 8 {
+		// the decorator shape uses the value through the second interface only
+		ifaceTo.WriteString("func Use(i I) {}\n\n")
+	} else {
+		ifaceTo.WriteString("func Use(i I) {\n" + useBody + "}\n\n")
+	}
 
 	// which implementations are converted to I, and how
 	flag0 := ndBool("flag0")
 	var sees1, sees2 bool // use() runs with S1 / S2 in some execution
+	switch conv {
+	case 5: // conversion at a return statement
+		b.WriteString("func mk() " + q + "I { return &S1{} }\n\n")
+	case 8: // decorator: a struct that embeds the interface is converted to ANOTHER interface
+		b.WriteString("type J interface {\n\tGet() *int\n\tSet(p *int)\n}\n\ntype wrap struct{ " + q + "I }\n\nfunc useJ(i J) {\n" + useBody + "}\n\n")
+	}
 	b.WriteString("func Entry() {\n")
-	switch ndChoice("conversion", 4) {
+	switch conv {
 	case 0: // only S1, by assignment
 		b.WriteString("\tvar i " + q + "I = &S1{}\n\t" + q + "Use(i)\n")
 		sees1 = true
@@ -83,9 +96,24 @@ func Harness_P09() {
 	case 2: // either, assignment in a branch
 		b.WriteString("\tvar i " + q + "I = &S1{}\n\tif flag0 {\n\t\ti = S2{}\n\t}\n\t" + q + "Use(i)\n")
 		sees1, sees2 = ndNot(flag0), flag0
-	default: // both, as arguments
+	case 3: // both, as arguments
 		b.WriteString("\t" + q + "Use(&S1{})\n\t" + q + "Use(S2{})\n")
 		sees1, sees2 = true, true
+	case 4: // short variable declaration that reuses an interface-typed variable
+		b.WriteString("\tvar i " + q + "I\n\ti, n := &S1{}, 0\n\t_ = n\n\t" + q + "Use(i)\n")
+		sees1 = true
+	case 5: // return statement
+		b.WriteString("\t" + q + "Use(mk())\n")
+		sees1 = true
+	case 6: // composite literal
+		b.WriteString("\tis := []" + q + "I{&S1{}, S2{}}\n\t" + q + "Use(is[0])\n\t" + q + "Use(is[1])\n")
+		sees1, sees2 = true, true
+	case 7: // append
+		b.WriteString("\tvar is []" + q + "I\n\tis = append(is, S2{})\n\t" + q + "Use(is[0])\n")
+		sees2 = true
+	default: // decorator
+		b.WriteString("\tvar inner " + q + "I = &S1{}\n\tuseJ(wrap{inner})\n")
+		sees1 = true
 	}
 	b.WriteString("}\n")
 	src := b.String()
